@@ -83,6 +83,9 @@ def rule_r4(ctx: Ctx) -> None:
 
 
 def run(ctx: Ctx) -> None:
+    from .creationmodel import creation_rule
+    ctx.rule("C03.R6", "over ALL decision sequences on the creation model grammars: no program deeper than the limit, no failing sequence at a feasible limit")
+    ctx.floor("C03.R6", creation_rule(ctx, "C03.R6", "bounded"), 20, "model grammar x decider x limit")
     ctx.rule("C03.R1", "per type form: true contribution <= creation's depth increment <= distance table's increment (both modes)")
     ctx.rule("C03.R2", "depth filters keep only alternatives that fit; the last-resort filter keeps all that fit")
     ctx.rule("C03.R3", "limits validated at construction; the library error is raised exactly for max_depth < grammar minimum")
